@@ -103,11 +103,12 @@ def other_kind_type(rng, sch, ty, also=None):
 
 
 def evolve(rng, schR, tname, kinds=('add', 'add', 'add', 'remove', 'retype', 'reorder', 'req', 'variant', 'retype_variant'),
-           n_edits=None, no_key=None):
+           n_edits=None, no_key=None, only=None):
     """-> (writer schema, list of edits).  Edits touch declarations reachable from tname."""
     W = schR.copy()
     no_key = no_key if no_key is not None else key_type_names(schR)
-    targets = [n for n in reachable_decls(schR, tname) if schR.types[n]['kind'] in ('struct', 'union') and n not in no_key]
+    targets = [n for n in reachable_decls(schR, tname) if schR.types[n]['kind'] in ('struct', 'union') and n not in no_key
+               and (only is None or only(n))]
     edits = []
     if not targets:
         return W, edits
